@@ -198,7 +198,12 @@ pub fn build(events: &[Event], view: &WireView, real_is_initiator: bool, min_seg
                     loss_episode_until = None;
                 }
             }
-            last_ack_wnd = Some((a, pk.wnd));
+            // the SYN-ACK is consumed by the socket, not by the connection: it is no reference
+            // for duplicate counting
+            let is_synack = real_is_initiator && m.acks.is_empty() && pk.ty == wire::ST_STATE;
+            if !is_synack {
+                last_ack_wnd = Some((a, pk.wnd));
+            }
             last_wnd = Some(pk.wnd);
             if batch.0 == e.t {
                 batch.1 = Some(batch.1.map_or(pk.wnd, |b: u32| b.max(pk.wnd)));
@@ -244,8 +249,9 @@ pub fn build(events: &[Event], view: &WireView, real_is_initiator: bool, min_seg
                     continue;
                 }
             }
-            let (n_before, prev_t) = tx_count.get(&idx).map(|(n, t)| (*n, Some(*t))).unwrap_or((0, None));
+            let (mut n_before, prev_t) = tx_count.get(&idx).map(|(n, t)| (*n, Some(*t))).unwrap_or((0, None));
             let first_tx = n_before == 0;
+            let mut recut_reset = false;
             let before = outstanding(&m.table, cum_acked, &sacked, max_idx);
             let in_order = is_fin || idx <= max_idx + 1;
             if !is_fin {
@@ -263,9 +269,16 @@ pub fn build(events: &[Event], view: &WireView, real_is_initiator: bool, min_seg
                         max_idx = idx;
                     }
                 } else if let Some(e2) = m.table.get_mut(&idx) {
-                    // a re-cut probe changes the length of the newest segment
-                    e2.1 = pk.payload.len();
+                    // a re-cut probe changes the length of the newest segment: it is a new segment
+                    // under the old sequence number, its transmission count starts again
+                    if e2.1 != pk.payload.len() {
+                        e2.1 = pk.payload.len();
+                        recut_reset = true;
+                    }
                 }
+            }
+            if recut_reset {
+                n_before = 0;
             }
             let already_acked = idx <= cum_acked || sacked.contains(&idx);
             let spontaneous = last_stim_t != Some(e.t) && last_write_t != Some(e.t);
